@@ -152,7 +152,16 @@ def check_command(r, fe, wire, op, prefix, last_ts, local=True):
 def run_case(case):
     r = Result()
     fe = case['frontend']
-    sim = AppSim(fe, registerer=NfdRegister() if fe == 'v2' else None, local=case.get('local', True))
+    other = None
+    if fe == 'v2' and case.get('second_app'):
+        # two appv2 applications in one process, both with the registerer the library installs by default; the second one is
+        # constructed later and stays idle: the first one's commands still leave through the FIRST one's face
+        sim = AppSim(fe, registerer='default', local=case.get('local', True))
+        from ndn import appv2 as _v2
+        other_face = net.MemFace()
+        other = _v2.NDNApp(face=other_face)
+    else:
+        sim = AppSim(fe, registerer=NfdRegister() if fe == 'v2' else None, local=case.get('local', True))
     try:
         if case.get('reconnect'):
             # an earlier connection, in another event loop, on which two registrations ran concurrently; then the same
@@ -170,6 +179,8 @@ def run_case(case):
             sim.renew_loop()
         if not r.violations:
             _run(sim, fe, case, r)
+        if other is not None and other_face.sent:
+            r.bad('C17/v2/command-left-through-another-applications-face', f'{len(other_face.sent)} packets on the idle application\'s face')
     finally:
         sim.finish()
         sim.close()
@@ -351,6 +362,7 @@ def _case(fe):
     return st.fixed_dictionaries({'frontend': st.just(fe), 'local': st.sampled_from([True, True, False]),
                                   'reconnect': st.sampled_from([False, False, True]),
                                   'tick': st.sampled_from([False, False, True]), 'cancel': st.sampled_from([None, None, 0, 1, 2]),
+                                  'second_app': st.sampled_from([False, False, True]),
                                   'calls': st.lists(_call(fe), min_size=1, max_size=6,
                                                     unique_by=lambda c: str(c['prefix']))})
 
@@ -432,10 +444,22 @@ def run_routes(case):
             if sorted(seen) != sorted(map(tuple, routes[:-1] if conn == 0 and case.get('during') else routes)):
                 r.bad(f'C17/{fe}/routes/connection-{conn}', f'register commands {seen} for routes {routes}')
                 break
-            err = sim.finish()
-            if err:
-                r.bad(f'C17/{fe}/routes/main-loop', err)
-                break
+            if conn == 0 and case.get('end') == 'cancel' and sim.main_task is not None:
+                # the connection ends because the task running main_loop() is cancelled (Ctrl+C), not by shutdown()
+                sim.vl.call(sim.main_task.cancel)
+                sim.vl.settle()
+                sim.vl.advance(0.01)
+                if not sim.main_task.done():
+                    r.bad(f'C17/{fe}/routes/main-loop', 'main_loop still running after its task was cancelled')
+                    break
+                if sim.face.running:
+                    sim.face.shutdown()
+                sim.vl.settle()
+            else:
+                err = sim.finish()
+                if err:
+                    r.bad(f'C17/{fe}/routes/main-loop', err)
+                    break
             sim.main_task = None
         errs = sim.vl.collect_errors()
         if errs:
@@ -452,7 +476,7 @@ def _routes_case():
                                   'routes': st.lists(S.name(1, 3, 8, allow_digest_types=False), min_size=1, max_size=4,
                                                      unique_by=str),
                                   'latency': st.sampled_from([0, 1, 5]), 'open_delay': st.sampled_from([0, 20]),
-                                  'late': st.integers(0, 2), 'during': st.booleans()})
+                                  'late': st.integers(0, 2), 'during': st.booleans(), 'end': st.sampled_from(['shutdown', 'cancel'])})
 
 
 # ---- parse_response round trip -----------------------------------------------------------------------------------------------
